@@ -53,6 +53,15 @@ func (p *c14P) peekOp(level string) (string, bool) {
 
 func c14Operator(s string) Operator { return operatorMap[s] }
 
+func (p *c14P) expect(kind string) bool {
+	if p.pos < len(p.toks) && p.toks[p.pos].kind == kind {
+		p.pos++
+		return true
+	}
+	p.bad = true
+	return false
+}
+
 // The functions parse_Expression, parse_Expr1 ... are generated from grammar.go's struct definitions
 // (zz_verif_c14_ladder.go); only the leaves are written here.
 
@@ -254,12 +263,27 @@ func c14Text(toks []c14Tok) string {
 		}
 		switch t.kind {
 		case "leaf":
-			if t.isB {
+			switch {
+			case t.term != nil && t.term.String != nil:
+				fmt.Fprintf(&sb, "%q", *t.term.String)
+			case t.term != nil && t.term.Set != nil:
+				sb.WriteString("[")
+				for k, e := range t.term.Set {
+					if k > 0 {
+						sb.WriteString(", ")
+					}
+					fmt.Fprintf(&sb, "%d", *e.Integer)
+				}
+				sb.WriteString("]")
+			case t.isB:
 				fmt.Fprintf(&sb, "%t", t.bv)
-			} else {
+			default:
 				fmt.Fprintf(&sb, "%d", t.iv)
 			}
 		case "op":
+			if c14Prec[t.op] == 0 {
+				sb.WriteString(". ") // method call
+			}
 			sb.WriteString(t.op)
 		default:
 			sb.WriteString(t.kind)
@@ -268,24 +292,95 @@ func c14Text(toks []c14Tok) string {
 	return sb.String()
 }
 
-// c14Tokens generates a token sequence: up to B infix operators over symbolic leaves, optionally one
-// leading '!' and one parenthesised sub-range.
-func c14Tokens() []c14Tok {
+// method-call leaves: LEFT.method(ARG), written out as tokens for the ladder and as ONE atomic leaf with
+// its documented value for the reference (method calls bind tightest).
+func c14StrTerm(s string) *Term { return &Term{String: &s} }
+func c14IntTerm(v int64) *Term  { return &Term{Integer: &v} }
+
+type c14Leaf struct {
+	toks []c14Tok // expanded form
+	ref  c14Tok   // atomic reference leaf (kind "leaf" with its value)
+}
+
+func c14MethodLeaf(k int) c14Leaf {
+	op := func(m string) c14Tok { return c14Tok{kind: "op", op: m} }
+	lp, rp := c14Tok{kind: "("}, c14Tok{kind: ")"}
+	sl := func(s string) c14Tok { return c14Tok{kind: "leaf", term: c14StrTerm(s)} }
+	strCase := func(m, s, t string, val bool) c14Leaf {
+		return c14Leaf{toks: []c14Tok{sl(s), op(m), lp, sl(t), rp}, ref: c14Tok{kind: "leaf", isB: true, bv: val}}
+	}
+	switch k {
+	case 0:
+		return strCase("starts_with", "abc", "ab", true)
+	case 1:
+		return strCase("starts_with", "abc", "bc", false)
+	case 2:
+		return strCase("ends_with", "abc", "bc", true)
+	case 3:
+		return strCase("ends_with", "abc", "ab", false)
+	case 4:
+		return strCase("contains", "abc", "b", true)
+	case 5:
+		return strCase("contains", "abc", "^a.c$", false)
+	case 6:
+		return strCase("matches", "abc", "^a.c$", true)
+	case 7:
+		return strCase("matches", "abc", "b$", false)
+	case 8:
+		return c14Leaf{toks: []c14Tok{sl("abcd"), op("length"), lp, rp}, ref: c14Tok{kind: "leaf", iv: 4}}
+	}
+	// sets of integers with symbolic members
+	a, b, x, y := vInt64("set.a"), vInt64("set.b"), vInt64("set.x"), vInt64("set.y")
+	vAssume(vAnd(vAnd(a >= 0, b >= 0), vAnd(x >= 0, y >= 0)))
+	vAssume(a != b)
+	set := c14Tok{kind: "leaf", term: &Term{Set: []*Term{c14IntTerm(a), c14IntTerm(b)}}}
+	one := c14Tok{kind: "leaf", term: &Term{Set: []*Term{c14IntTerm(x)}}}
+	il := func(v int64) c14Tok { return c14Tok{kind: "leaf", iv: v} }
+	inAB := vOr(y == a, y == b)
+	switch k {
+	case 9:
+		return c14Leaf{toks: []c14Tok{set, op("contains"), lp, il(y), rp}, ref: c14Tok{kind: "leaf", isB: true, bv: inAB}}
+	case 10:
+		return c14Leaf{toks: []c14Tok{set, op("union"), lp, one, rp, op("contains"), lp, il(y), rp},
+			ref: c14Tok{kind: "leaf", isB: true, bv: vOr(inAB, y == x)}}
+	case 11:
+		return c14Leaf{toks: []c14Tok{set, op("intersection"), lp, one, rp, op("contains"), lp, il(y), rp},
+			ref: c14Tok{kind: "leaf", isB: true, bv: vAnd(vOr(x == a, x == b), y == x)}}
+	}
+	return c14Leaf{toks: []c14Tok{set, op("length"), lp, rp}, ref: c14Tok{kind: "leaf", iv: 2}}
+}
+
+const c14Methods = 13
+
+// c14Tokens generates a token sequence: up to B infix operators over symbolic leaves (or, when the
+// scenario asks for them, method-call leaves), optionally one leading '!' and one parenthesised
+// sub-range. It returns the expanded tokens (for the ladder) and the reference tokens.
+func c14Tokens() ([]c14Tok, []c14Tok) {
 	B := vParam("ops")
 	n := vChoose("nops", B+1)
 	bools := vChoose("leaf-kind", 2) == 1
-	leaf := func() c14Tok {
+	withMethods := vParam("methods") != 0
+	nleaf := 0
+	leaf := func() c14Leaf {
+		nleaf++
+		// at most one method-call leaf per sequence (the first or the second leaf)
+		if withMethods && nleaf == 1+vParam("methodpos") {
+			return c14MethodLeaf(vChoose("method", c14Methods))
+		}
 		if bools {
-			return c14Tok{kind: "leaf", isB: true, bv: vBool("leaf.bool")}
+			t := c14Tok{kind: "leaf", isB: true, bv: vBool("leaf.bool")}
+			return c14Leaf{toks: []c14Tok{t}, ref: t}
 		}
 		v := vInt64("leaf.int")
 		vAssume(v >= 0) // the lexer has no sign: integer literals are non-negative
-		return c14Tok{kind: "leaf", iv: v}
+		t := c14Tok{kind: "leaf", iv: v}
+		return c14Leaf{toks: []c14Tok{t}, ref: t}
 	}
-	var core []c14Tok // leaf op leaf op leaf ...
-	core = append(core, leaf())
+	leaves := []c14Leaf{leaf()}
+	var ops []c14Tok
 	for i := 0; i < n; i++ {
-		core = append(core, c14Tok{kind: "op", op: c14Infix[vChoose("op", len(c14Infix))]}, leaf())
+		ops = append(ops, c14Tok{kind: "op", op: c14Infix[vChoose("op", len(c14Infix))]})
+		leaves = append(leaves, leaf())
 	}
 	// one parenthesised proper sub-range of leaves [i..j], or none
 	type rng struct{ i, j int }
@@ -299,23 +394,25 @@ func c14Tokens() []c14Tok {
 	}
 	pr := ranges[vChoose("parens", len(ranges))]
 	neg := vChoose("negated-leaf", n+2) - 1 // -1: none, else index of the leaf that gets a '!'
-	var toks []c14Tok
+	var toks, rtoks []c14Tok
+	both := func(t c14Tok) { toks = append(toks, t); rtoks = append(rtoks, t) }
 	for k := 0; k <= n; k++ {
 		if k > 0 {
-			toks = append(toks, core[2*k-1])
+			both(ops[k-1])
 		}
 		if k == pr.i {
-			toks = append(toks, c14Tok{kind: "("})
+			both(c14Tok{kind: "("})
 		}
 		if k == neg {
-			toks = append(toks, c14Tok{kind: "!"})
+			both(c14Tok{kind: "!"})
 		}
-		toks = append(toks, core[2*k])
+		toks = append(toks, leaves[k].toks...)
+		rtoks = append(rtoks, leaves[k].ref)
 		if k == pr.j {
-			toks = append(toks, c14Tok{kind: ")"})
+			both(c14Tok{kind: ")"})
 		}
 	}
-	return toks
+	return toks, rtoks
 }
 
 func c14Root() ed25519.PrivateKey {
@@ -333,13 +430,13 @@ func c14FirstUse(c biscuit.Check) {
 
 func VerifC14Expression() {
 	vForbidPanic("C14")
-	toks := c14Tokens()
+	toks, rtoks := c14Tokens()
 	p := &c14P{toks: toks}
 	ast := p.expression()
-	r := &c14R{toks: toks}
+	r := &c14R{toks: rtoks}
 	ref := r.climb(1)
 	ladderOK := !p.bad && p.pos == len(toks)
-	refOK := !r.bad && r.pos == len(toks)
+	refOK := !r.bad && r.pos == len(rtoks)
 	// the tag-derived ladder and the documented grammar accept the same token sequences
 	vAssert(ladderOK == refOK, "C14.same-language")
 	if !ladderOK || !refOK {
